@@ -173,9 +173,9 @@ def known_absent(fi, cfg, cc, at, key, container):
                 if isinstance(v, ast.Call) and isinstance(v.func, ast.Attribute) and v.func.attr == "get" and norm(v.func.value) == container \
                         and v.args and norm(v.args[0]) == key and (len(v.args) == 1 or (isinstance(v.args[1], ast.Constant) and v.args[1].value is None)) \
                         and not v.keywords:
-                    # the same definition must still be the one that reaches the guarded node
-                    if single_def_value(fi, name, at) is v:
-                        return True
+                    # (the fact was established at the test: the name may be rebound afterwards, for example to the fresh object
+                    # that is then stored under the key)
+                    return True
     return False
 
 
@@ -608,3 +608,41 @@ def node_lits_sym(fi, cfg, nid, cc):
         e = sym_expr(fi, t, tn) if tn is not None else t
         lits += cc.literal(e, pol)
     return lits
+
+
+def slot_of(fi, expr, at):
+    """the dictionary slot `D[K]` an expression denotes at the cfg node of `at`:
+       D[K] itself;  a name all of whose reaching definitions are either `D.get(K[, None])` (on the paths where it was not None)
+       or a value that the function stores into D[K] (`D[K] = name`) before `at` on every path from that definition.
+    -> text 'D[K]' or None"""
+    if isinstance(expr, ast.Subscript) and not isinstance(expr.slice, ast.Slice):
+        return norm(expr)
+    if not isinstance(expr, ast.Name):
+        return None
+    du = defuse_of(fi)
+    cfg = du.cfg
+    node = cfg.node_of(at)
+    if node is None:
+        return None
+    slots = set()
+    for (nid, v, how) in du.reaching(expr.id, node.id):
+        if nid == "ENTRY" or not isinstance(v, ast.AST):
+            return None
+        if isinstance(v, ast.Subscript) and not isinstance(v.slice, ast.Slice):
+            slots.add(norm(v))
+            continue
+        if isinstance(v, ast.Call) and isinstance(v.func, ast.Attribute) and v.func.attr == "get" and v.args and not v.keywords \
+                and (len(v.args) == 1 or (isinstance(v.args[1], ast.Constant) and v.args[1].value is None)):
+            slots.add("%s[%s]" % (norm(v.func.value), norm(v.args[0])))
+            continue
+        # some other value: it must be put into the slot on the way
+        stores = [n for n in cfg.stmts((ast.Assign,)) if len(n.ast.targets) == 1 and isinstance(n.ast.targets[0], ast.Subscript)
+                  and isinstance(n.ast.value, ast.Name) and n.ast.value.id == expr.id]
+        ok = False
+        for st in stores:
+            if cfg.must_pass(nid, node.id, {st.id}) if hasattr(cfg, "must_pass") else False:
+                slots.add(norm(st.ast.targets[0]))
+                ok = True
+        if not ok:
+            return None
+    return slots.pop() if len(slots) == 1 else None
